@@ -1,0 +1,32 @@
+//go:build verif
+
+// Contracts for package hmac, used by /verif/govc (see /verif/DESIGN.md).
+// Comment-only: this file adds no code to the package.
+package hmac
+
+// The HMAC layer is not yet verified: the engine has no model of writes through array slices
+// (copy(signingKey[:], secret)). These contracts are TRUSTED (listed in every evidence file that uses them).
+// hmacsig(t): the part of t after the dot (what storage is keyed by); authentic(s, t): t's random part
+// authenticates against its signature part under a secret configured for s; hmacstr(s, x): base64 of the MAC of x.
+//@ spec func hmacsig(token string) string
+//@ spec func authentic(s *HMACStrategy, token string) bool
+//@ spec func hmacstr(s *HMACStrategy, text string) string
+
+//@ func (*HMACStrategy).Signature(s, token)
+//@   trusted
+//@   pure
+//@   ensures result == hmacsig(token)
+
+//@ func (*HMACStrategy).Validate
+//@   trusted
+//@   ensures err == nil ==> authentic(c, token)
+
+//@ func (*HMACStrategy).Generate
+//@   trusted
+//@   ensures result2 == nil ==> result0 != "" && result1 != "" && result1 == hmacsig(result0) && authentic(c, result0)
+//@   ensures result2 != nil ==> result0 == "" && result1 == ""
+
+//@ func (*HMACStrategy).GenerateHMACForString
+//@   trusted
+//@   ensures err == nil ==> result0 == hmacstr(c, text) && result0 != ""
+//@   ensures err != nil ==> result0 == ""
